@@ -273,7 +273,20 @@ func cmdCheck(args []string) int {
 		if budget == 0 {
 			budget = 10 * time.Minute
 		}
+		cfg.AtomFallback = 2
 		res := runHarness(l.prog, entry, cfg, handlers, known, *workers, budget)
+		if res.AtomAbort {
+			// the code under test inspects the content of names: repeat with names drawn as
+			// strings of 0..2 symbolic ASCII bytes (exact within that bound)
+			fmt.Printf("  %-34s names are inspected by the code (%s): repeating with names as byte strings of <= %d ASCII bytes\n", rs.Entry, firstUnsupported(res.Notes), cfg.AtomFallback)
+			cfg2 := *cfg
+			cfg2.AtomBytes, cfg2.AtomFallback = cfg.AtomFallback, 0
+			res = runHarness(l.prog, entry, &cfg2, handlers, known, *workers, budget)
+			if res.Notes == nil {
+				res.Notes = map[string]int{}
+			}
+			res.Notes[fmt.Sprintf("bound reduced: the code inspects name content, names drawn as strings of 0..%d ASCII bytes instead of arbitrary strings", cfg2.AtomBytes)]++
+		}
 		res.spec = rs
 		results = append(results, res)
 		fmt.Printf("  %-34s paths=%d forks=%d oblig=%d/%d viol=%d known=%d assume=%d unsup=%d unwind=%d inconcl=%d internal=%d q=%d solver=%.1fs wall=%.1fs\n",
@@ -284,6 +297,15 @@ func cmdCheck(args []string) int {
 		}
 	}
 	return report(id, tier, ps, results, loadT, time.Since(t0), *noreplay)
+}
+
+func firstUnsupported(notes map[string]int) string {
+	for n := range notes {
+		if strings.HasPrefix(n, "unsupported: ") && strings.Contains(n, "atom") {
+			return firstLine(n)
+		}
+	}
+	return "?"
 }
 
 func firstLine(s string) string {
